@@ -22,7 +22,62 @@ MAGIC = ["message", "response", "endpoint", "keepalive", "event: message", "data
 SYNTAX = ["NaN", "[NaN]", ":Infinity,", "-Infinity", "values=[1.0, NaN]", "data:", "data: {\"jsonrpc\":\"2.0\",\"id\":1,\"result\":{}}", "event: message",
           "event:endpoint", "id: 1", "retry: 0", ": comment", ":", "{}", "[]", "{\"jsonrpc\":\"2.0\",\"id\":1,\"result\":{}}", "\n\ndata: x\n\n", "\r\n\r\n",
           "]}", "\"}", "\\u0000", "null", "true", "1e309", "[1,", "\ufeff{"]
-TEXTS = TEXTS + HOSTILE + MAGIC + SYNTAX
+TWINS = ["\u00e9", "e\u0301", "\u212b\u00c5A\u030a", "a\ufeffb", "\ufeff", "\ufffe", "\ufffd", "I\u0307\u0130\u0131", "\u1e9e\u00df", "ﬁ"]   # NFC / NFD twins, BOM inside text, case-mapping oddities
+TEXTS = TEXTS + HOSTILE + MAGIC + SYNTAX + TWINS
+CT_UTF8 = [None, None, None, "; charset=utf-8", "; CHARSET=UTF-8", "; charset=\"utf-8\"", ";charset=UTF8", "; boundary=x; charset=utf-8"]
+CT_OTHER = ["; charset=ISO-8859-1", "; charset=windows-1252", ";charset=us-ascii", "; charset=utf-16", "; boundary=x; charset=latin1", "; charset=bogus",
+            "; charset=\"ISO-8859-1\"", "; CHARSET=Latin1"]
+CT_PARAMS = CT_UTF8 + CT_OTHER   # Content-Type parameters of a reply: JSON and event streams are UTF-8 whatever the label says
+MIME_CASE = {"application/json": ["Application/JSON", "APPLICATION/JSON", "application/JSON"],
+             "text/event-stream": ["Text/Event-Stream", "TEXT/EVENT-STREAM", "text/Event-Stream"]}
+
+
+SSE_TIMEOUT_TICKS = 60 * 1024   # SSEParameters.timeout (default; the options generated here leave it alone)
+
+
+def charset_of(ctp):
+    """the charset a Content-Type parameter string names (lower case, unquoted), or None"""
+    for part in (ctp or "").split(";"):
+        k, _, v = part.partition("=")
+        if k.strip().lower() == "charset":
+            return v.strip().strip('"').lower()
+    return None
+
+
+def names_other_charset(ctp):
+    return charset_of(ctp) not in (None, "utf-8", "utf8")
+
+
+def mime(rng, canonical):
+    return rng.choice(MIME_CASE[canonical]) if rng.random() < 0.06 else canonical
+
+
+def label_class(case, carrier):
+    """the declared-metadata dimension a case exercises on one carrier: a media type not written in lower case,
+    an event stream labelled with another charset than UTF-8 or starting with a byte order mark (else None)"""
+    w = case.get("wire") or {}
+    many = lambda v: [v] if isinstance(v, dict) else (v or [])
+    if carrier == "http_json":
+        if any(c.get("mime", "").lower() != c.get("mime", "") for c in many(w.get("json"))):
+            return "media-type-case"
+    elif carrier == "http_sse":
+        bs = many(w.get("httpsse"))
+        if any(c.get("mime", "").lower() != c.get("mime", "") for c in bs):
+            return "media-type-case"
+        if any(c.get("bom") or names_other_charset(c.get("ctp")) for c in bs):
+            return "event-stream-label"
+    elif carrier == "sse":
+        e = w.get("sse") or {}
+        if e.get("bom") or names_other_charset(e.get("ctp")):
+            return "event-stream-label"
+        if any((x["call"].get("pause") or 0) >= SSE_TIMEOUT_TICKS for x in case.get("xs") or []):
+            return "consumer-slower-than-timeout"
+        ids = [x["call"]["id"] for x in case.get("xs") or [] if isinstance(x["call"].get("id"), dict)]
+        if any(("i" in a) != ("i" in b) and str(a.get("i", a.get("s"))) == str(b.get("i", b.get("s"))) for a in ids for b in ids):
+            return "id-twins"   # 7 and "7" used as request ids on one connection
+    return None
+
+
 KEYS = ["k", "é", "", "a b", "\U0001F600", "data", "id", "jsonrpc", "method", "params", "result", "error", "_meta", "progressToken", "%s", "{}",
         "data:", "event: message", "NaN", ":", "\n", "[]", "{\"a\":1}"]
 EXC_NAMES = ["TypeError", "ValueError", "KeyError", "IndexError", "AttributeError", "RuntimeError", "RecursionError", "OSError", "Exception", "StrRaises"]
@@ -128,6 +183,10 @@ def call(rng, names, k=0):
             c["id"] = {"s": f"req-é-{k}"}
         if rng.random() < 0.2:
             c["progress"] = True
+            if rng.random() < 0.4:
+                c["cb_writes"] = True   # the progress callback writes on the write stream its request went out on
+        if params and rng.random() < 0.2:
+            c["subclassed"] = True      # params built from dict / str SUBCLASSES
         if k and rng.random() < 0.15:
             c["reuse"] = True
         return c
@@ -243,6 +302,8 @@ def wire(rng, xs):
         w["stdio"] = {"crlf": [rng.random() < 0.4 for _ in range(nmsg)], "cuts": [cuts(rng) for _ in xs]}
         if rng.random() < 0.3:
             w["stdio"]["batch"] = [rng.random() < 0.5 for _ in xs]
+            if rng.random() < 0.4:
+                w["stdio"]["junk"] = [[rng.randrange(6)] if rng.random() < 0.6 else [] for _ in xs]
         if rng.random() < 0.3:
             w["stdio"]["blank"] = [rng.choice([[], [], [""], [" \t"], ["\r", ""], ["\u2028"]]) for _ in range(nmsg)]
         if rng.random() < 0.15:
@@ -252,14 +313,19 @@ def wire(rng, xs):
         needs_all = None  # this conversation is not put on HTTP + JSON bodies
     if needs_all is not None and (any(needs_all) or rng.random() < 0.8):
         w["json"] = [{"status": rng.choice([200, 200, 201]), "sess": rng.choice([None, None, "S-1", "", "0"]),
-                      "batch": rng.random() < 0.3, "all": na or rng.random() < 0.15} for na in needs_all]
+                      "batch": rng.random() < 0.3, "all": na or rng.random() < 0.15,
+                      "ctp": rng.choice(CT_PARAMS), "mime": mime(rng, "application/json"), "hname": rng.choice([None, None, "upper", "title"])} for na in needs_all]
+        for c in w["json"]:
+            if c["all"] and rng.random() < 0.3:
+                c["junk"] = [rng.randrange(6) for _ in range(rng.choice([1, 2]))]
     if rng.random() < 0.8:
         w["httpsse"] = [{
             "status": rng.choice([200, 200, 201]), "sess": rng.choice([None, "S-2", ""]),
             "evs": [{"name": rng.choice([None, "message", "response"]), "nc": field_choice(rng), "dc": field_choice(rng),
                      "after": ignored(rng) if rng.random() < 0.3 else [], "before": noise(rng)}
                     for _ in range(len(x["notifs"]) + 1 + len(x.get("after", [])))],
-            "trailing": noise(rng),
+            "trailing": noise(rng), "ctp": rng.choice(CT_UTF8 if rng.random() < 0.93 else CT_OTHER), "mime": mime(rng, "text/event-stream"),
+            "bom": rng.random() < 0.04, "hname": rng.choice([None, None, "upper", "title"]),
             "eols": [rng.random() < 0.5 for _ in range(rng.choice([0, 4, 24]))],
             "tail": rng.choice(["full", "noblank", "noeol"])} for x in xs]
     if rng.random() < 0.8:
@@ -276,6 +342,11 @@ def wire(rng, xs):
             w["sse"]["eof"] = True
         if rng.random() < 0.15:
             w["sse"]["untyped"] = [rng.random() < 0.5 for _ in range(nmsg)]
+        if rng.random() < 0.4:
+            w["sse"]["ctp"] = rng.choice(CT_UTF8 if rng.random() < 0.8 else CT_OTHER)
+            w["sse"]["ctp200"] = rng.choice(CT_PARAMS)
+        if rng.random() < 0.05:
+            w["sse"]["bom"] = True
     return w
 
 
@@ -309,9 +380,13 @@ def dims(rng, case, twins=True):
     """the dimensions every case is crossed with: DEBUG logging live, transport options, several
     transport instances alive at once, re-entering a transport object"""
     if rng.random() < 0.3:
-        case["debug"] = True
+        case["debug"] = rng.choice([True, "format", "format"])   # a NullHandler, or a handler that formats every record
+    if rng.random() < 0.1:
+        case["stderr"] = rng.choice(["closed", "ascii", "failing"])   # the host's stderr
     if rng.random() < 0.5:
         case["opts"] = options(rng)
+    if case.get("xs") and rng.random() < 0.08:
+        rng.choice(case["xs"])["idle"] = rng.choice([3600 * 1024, 5 * 3600 * 1024, 90 * 1024])   # the session sits idle, then goes on
     if twins:
         r = rng.random()
         if r < 0.1:
@@ -331,6 +406,10 @@ def style(rng):
         st["order"] = "rev"   # top-level members in reverse order (id after result, jsonrpc last)
     if rng.random() < 0.2:
         st["extra"] = True    # an extra top-level member
+    if rng.random() < 0.15:
+        st["nulls"] = True    # "error": null next to a result, "result": null next to an error
+    if rng.random() < 0.15:
+        st["dup"] = True      # a duplicated member
     return st
 
 
@@ -382,7 +461,7 @@ def limits(rng, names, budget):
     """large messages (>= 64 KiB, >= 1 MiB) in every text position and direction, bursts around the
     100-slot stream buffers, producer and consumer paused — on every carrier (`all`: JSON bodies too)"""
     out = []
-    sizes = [65535, 65536, 65537, 70000] + ([1100000] if budget != "quick" else [])
+    sizes = [65535, 65536, 65537, 70000, 100000] + ([1100000] if budget != "quick" else [])
     pick = (lambda l, n: l) if budget != "quick" else (lambda l, n: rng.sample(l, min(n, len(l))))
     def conv(xs, **w):
         return {"xs": xs, "style": style(rng), "D": 5120, "tie": rng.choice(TIES), "wire": w}
@@ -398,6 +477,29 @@ def limits(rng, names, budget):
         out.append(conv([x, exchange(rng, names, 0, k=1, plain=True)],
                         stdio={"cuts": [edge, []]}, sse={"cuts": [edge, []], "ack": [rng.choice([0, 1, 9]), 0]},
                         json=[{"all": True}, {}]))
+    # one message far above every buffer (64 KiB pipe / stream chunks), arriving in many reads, with small messages
+    # before and after it in the same exchange and small exchanges around
+    for size in ([300000] if budget == "quick" else [100000, 300000, 1100000]):
+        big = unit * (size // len(unit.encode("utf-8")) + 1)
+        many = list(range(4096, size + 4096, rng.choice([4096, 8192, 65536])))
+        xs = [exchange(rng, names, 0, k=0, plain=True),
+              {"call": {"h": "send_message", "method": "tools/call", "params": None},
+               "notifs": small_notifs(2, "s") + [{"method": "notifications/message", "params": {"data": big}}] + small_notifs(2, "t"),
+               "reply": {"result": {"t": big[: size // 2], "after": "s"}}, "lat": 1, "gap": 1},
+              exchange(rng, names, 0, k=2, plain=True)]
+        out.append(conv(xs, stdio={"cuts": [[], many, []]}, sse={"cuts": [[], many, []], "ack": [0, rng.choice([0, 3]), 0]},
+                        json=[{}, {"all": True}, {}]))
+    # the 1000th message of a session (and beyond) on one connection
+    per = 40 if budget == "quick" else 100
+    out.append(conv([{"call": {"h": rng.choice(names)}, "notifs": small_notifs(per, f"m{k}-"), "reply": {"result": {}}, "lat": 1, "gap": 1}
+                     for k in range(1040 // per + 1)], json={"all": True}))
+    # the consumer does not read for longer than the transport's request timeout (60 s) while more than a read-stream
+    # buffer (100 slots) is outstanding in front of the reply
+    for n, pause in ([(150, 70 * 1024)] if budget == "quick" else [(150, 70 * 1024), (101, 61 * 1024), (250, 3700 * 1024), (99, 70 * 1024)]):
+        out.append(conv([{"call": {"h": "raw", "id": {"i": 1}, "method": "tools/list", "params": None, "pause": pause},
+                          "notifs": small_notifs(n), "reply": {"result": {"n": n}}, "lat": 1, "gap": 1},
+                         {"call": {"h": "send_ping"}, "notifs": small_notifs(3, "c"), "reply": {"result": {}}, "lat": 1, "gap": 1}],
+                        json=[{"all": True}, {"all": True}], sse={"ack": [rng.choice([0, 1]), 0]}))
     for n in pick(BURSTS, 2):
         # before the reply, the helper reading all along
         out.append(conv([{"call": {"h": rng.choice(names)}, "notifs": small_notifs(n), "reply": {"result": {}}, "lat": 1, "gap": 1},
@@ -423,6 +525,93 @@ def directed(rng, names):
         for cls in range(3):
             out.append({"xs": [{"call": c, "notifs": [notif(rng)] if cls == 1 else [], "reply": error_reply(rng, cls), "lat": 1, "gap": 1}],
                         "style": STYLES[cls % len(STYLES)], "D": 5120, "tie": TIES[cls]})
+    return out
+
+
+NON_ASCII = ["\u00e9", "\u20ac", "\u00a0\u00ff", "\U0001F600", "e\u0301", "\ufeff", "\u00c3\u00a9", "\u0080\u009f", "\u4e2d\u6587", "a"]
+
+
+def label_matrix(rng):
+    """declared metadata of a reply against its bytes: every Content-Type parameter x every place a carrier reads a
+    labelled body (JSON body as object and as array of all messages, SSE body, the legacy GET stream, the legacy
+    200 POST reply) x non-ASCII payload text; media types in other case; a byte order mark in front of an event stream"""
+    out = []
+
+    def conv(k):
+        t = "".join(NON_ASCII[(k + i) % len(NON_ASCII)] for i in range(4))
+        return [{"call": {"h": "send_message", "method": "tools/list", "params": {"cursor": t}},
+                 "notifs": [{"method": "x", "params": {"data": NON_ASCII[k % len(NON_ASCII)], t: [t]}}] if k % 2 else [],
+                 "reply": {"result": {"t": t, NON_ASCII[(k + 1) % len(NON_ASCII)]: [t, None]}} if k % 3 else {"error": {"code": 1, "message": t, "data": {"d": t}}},
+                 "lat": 1, "gap": 1}]
+
+    def case(k, wire):
+        return {"xs": conv(k), "style": {"sp": k % 4 == 0, "ascii": False}, "D": 5120, "tie": TIES[k % len(TIES)], "wire": wire}
+
+    k = 0
+    for ctp in sorted(set(CT_PARAMS), key=lambda v: v or ""):
+        for place in ("json", "json-all", "httpsse", "sse-stream", "sse-200"):
+            k += 1
+            if place == "json":
+                if k % 2:
+                    continue   # a notification in front needs the array body
+                w = {"json": [{"ctp": ctp, "batch": k % 4 == 0}]}
+            elif place == "json-all":
+                w = {"json": [{"ctp": ctp, "all": True}]}
+            elif place == "httpsse":
+                w = {"httpsse": [{"ctp": ctp, "tail": "full"}]}
+            elif place == "sse-stream":
+                w = {"sse": {"ctp": ctp}}
+            else:
+                w = {"sse": {"ctp200": ctp, "m200": [True]}}
+            out.append(case(k, w))
+    for canonical, variants in sorted(MIME_CASE.items()):
+        for m in variants:
+            for ctp in (None, "; charset=utf-8", "; charset=ISO-8859-1"):
+                k += 1
+                place = "json" if canonical == "application/json" else "httpsse"
+                out.append(case(k, {place: [{"ctp": ctp, "mime": m} | ({"all": True} if place == "json" else {})]}))
+    for ctp in (None, "; charset=utf-8", "; charset=windows-1252"):
+        k += 1
+        out.append(case(k, {"httpsse": [{"ctp": ctp, "bom": True}]}))
+        k += 1
+        out.append(case(k, {"sse": {"ctp": ctp, "bom": True}}))
+    return out
+
+
+def environment_matrix():
+    """the host's logging and stderr x a message that cannot be sent: a handler that formats every record (or none) x
+    stderr closed / failing / ascii-only / as it is x the exception class of the failed serialisation"""
+    out = []
+    for debug in ("format", True, None):
+        for stderr in ("closed", "failing", "ascii", None):
+            for exc in ("StrRaises", "TypeError"):
+                case = {"xs": [{"call": {"h": "raw", "id": {"s": "unsendable-0"}, "method": "x", "params": None, "form": "raising", "exc": exc},
+                                "notifs": [], "reply": {"error": {"code": 1, "message": "a"}}, "lat": 1, "gap": 1},
+                               {"call": {"h": "send_message", "method": "tools/list", "params": {"cursor": "\u00e9"}},
+                                "notifs": [{"method": "message", "params": {"data": "\u00e9\U0001F600"}}], "reply": {"result": {"t": "\u00e9"}}, "lat": 1, "gap": 1}],
+                        "style": {"sp": False, "ascii": False}, "D": 5120, "tie": "events", "quiet_stderr": True}
+                if debug:
+                    case["debug"] = debug
+                if stderr:
+                    case["stderr"] = stderr
+                out.append(case)
+    return out
+
+
+def late_duplicates():
+    """a request that gave up (tiny timeout), its reply and a duplicate of it arriving late, while the next request
+    bears the id's type twin (7 then "7", "7" then 7) or another id, answered on the stream or in the POST reply"""
+    out = []
+    # (the SAME id again while a reply to its first use may still arrive is the caller's ambiguity, not a carrier's: left out)
+    for first, second in (({"i": 7}, {"s": "7"}), ({"s": "7"}, {"i": 7}), ({"i": 7}, {"i": 8}), ({"s": "7"}, {"s": "07"})):
+        for m200 in (True, False):
+            out.append({"xs": [{"D": 1, "after": [{"method": "notifications/tools/list_changed"}, {"dup": True}],
+                                "call": {"h": "send_message", "id": first, "method": "tools/call", "params": None},
+                                "gap": 1, "lat": 10, "notifs": [], "reply": {"error": {"code": 1, "message": "a"}}},
+                               {"after": [{"method": "x"}, {"dup": True}],
+                                "call": {"h": "send_message", "id": second, "method": "prompts/get", "params": None},
+                                "gap": 1, "lat": 1, "notifs": [{"method": "x"}], "reply": {"result": {}}}],
+                        "style": {"sp": False, "ascii": False}, "D": 5120, "tie": "events", "wire": {"sse": {"m200": [False, m200]}}})
     return out
 
 
